@@ -632,7 +632,7 @@ pub fn rand_cfg(rng: &mut Rng, kind: Kind, anchored: bool, ci: bool) -> Cfg {
         sk,
         ci,
         pre: rng.chance(2, 3),
-        dense_depth: *rng.pick(&[None, None, Some(0), Some(1), Some(2), Some(3), Some(100)]),
+        dense_depth: *rng.pick(&[None, None, Some(0), Some(1), Some(2), Some(3), Some(4), Some(7), Some(100), Some(usize::MAX)]),
         byte_classes: rng.chance(3, 4),
     }
 }
